@@ -41,6 +41,9 @@ type CommitRec struct {
 	Session int
 	Task    string // task key that issued the COMMIT
 	Writes  []WriteRec
+	// Begin / At: the database clock when the transaction began (autocommit statements: when it committed) and when
+	// it committed - every date the database assigned inside it lies between the two
+	Begin, At time.Time
 }
 
 type DB struct {
@@ -100,6 +103,7 @@ type Session struct {
 	sessAdv map[string]int
 	dead    bool
 	txDate  *time.Time
+	txBegin time.Time // database clock at BEGIN of the current explicit transaction
 	// what this session is currently waiting for (deadlock detection)
 	waitRow *rowKey
 	waitAdv string
@@ -157,6 +161,7 @@ func (s *Session) Begin() error {
 	}
 	s.beginLocked("")
 	s.txDate = nil
+	s.txBegin = s.db.nowLocked()
 	return nil
 }
 
@@ -304,7 +309,10 @@ func (s *Session) commitTopLocked(task string) {
 	if len(t.order) > 0 {
 		db.commitSeq++
 		*db.eventCtr++
-		rec := CommitRec{Seq: db.commitSeq, Event: *db.eventCtr, Session: s.id, Task: task}
+		rec := CommitRec{Seq: db.commitSeq, Event: *db.eventCtr, Session: s.id, Task: task, At: db.nowLocked(), Begin: s.txBegin}
+		if s.implicit || rec.Begin.IsZero() || rec.Begin.After(rec.At) {
+			rec.Begin = rec.At
+		}
 		for _, k := range t.order {
 			before := db.committed[k]
 			after := t.writes[k]
